@@ -1,0 +1,14 @@
+//go:build verif
+
+// Contracts for package pb (legacy codec), checked by /verif (govc). Comment-only.
+package pb
+
+//@ define validPB(p *pb) = p != nil && p.refEntry != nil && p.refClock != nil
+
+//@ func (*pb).DecodeRawJSONLog
+//@   requires p != nil && node != nil
+//@   ensures err == nil ==> result0 != nil
+
+//@ func (*pb).DecodeRawEntry
+//@   requires validPB(p) && node != nil
+//@   ensures [decoded-entry-is-safe-to-use] err == nil ==> validEntry(result0) && fresh(result0)
